@@ -104,6 +104,7 @@ structure St where
   crashed : Bool
   refused : Option Write    -- the write the process died in front of
   fuelOut : Bool            -- a recursion bound of the model was hit (never, see `Props`)
+  p008 : Bool               -- fork configuration: `common.IsProposal008()` (executed-transaction check in verifyBlock)
 
 /-- Perform one physical write, or die in front of it. -/
 def St.write (s : St) (w : Write) : St :=
@@ -202,7 +203,7 @@ def verify (s : St) (b : Block) : St × Bool :=
   match s.disk.blocks b.pre with
   | none => (s.setMem { s.mem with future := upd s.mem.future b.pre (some b) }, false)
   | some _ =>
-    if b.txs.any (fun t => (s.disk.executed t).isSome) then (s, false)   -- Proposal008
+    if s.p008 && b.txs.any (fun t => (s.disk.executed t).isSome) then (s, false)   -- Proposal008
     else if !b.valid then (s, false)                                       -- checkStates
     else (s.setMem { s.mem with verified := lruAdd verifiedCap s.mem.verified b.hash }, true)
 
@@ -280,6 +281,22 @@ def addBlock (fuel : Nat) (s : St) (b : Block) : St × Res :=
   else if (s.disk.blocks b.hash).isSome then (s, .existed)
   else addCore fuel s b
 
+/-- The loop of the sync fork switch (`blockChainFork.triggerOnChain`): `tryAddBlockOnChain` — i.e.
+    `consensusVerify` then `addBlockOnChain`, exactly `addBlock` — for each fork block in turn, stopping at the
+    first one that is not added. -/
+def forkAdd (fuel : Nat) : St → List Block → St
+  | s, [] => s
+  | s, b :: bs =>
+    match addBlock fuel s b with
+    | (s', .succ) => forkAdd fuel s' bs
+    | (s', _) => s'
+
+/-- `triggerOnChain` once its own checks have passed: `removeFromCommonAncestor(commonAncestor)`, then the
+    fork's blocks one by one. (Its checks — fork tip QN not lower, `nextPvGreatThanFork` on a tie — read the
+    fork store of the sync processor and are not modelled; the theorems hold whatever they decide.) -/
+def forkSwitch (fuel : Nat) (s : St) (anc : Block) (bs : List Block) : St :=
+  forkAdd fuel (removeFromCommonAncestor s anc) bs
+
 /-- `TxPool.AddTransaction`. -/
 def poolAdd (s : St) (t : Nat) : St × Bool :=
   if t ∈ s.mem.pending ∨ (s.disk.executed t).isSome then (s, false)
@@ -337,7 +354,7 @@ def genesisState (g : Block) : St :=
                              current := some g,
                              roots := updB (fun _ => false) g.hash true },
     mem := { latest := g, top := fun _ => none, verified := [], future := fun _ => none, pending := [] },
-    log := [], budget := none, crashed := false, refused := none, fuelOut := false }
+    log := [], budget := none, crashed := false, refused := none, fuelOut := false, p008 := true }
 
 /-- Fuel the driver supplies: one re-entry after a reorg plus a generous bound on orphan cascades. -/
 def defaultFuel : Nat := 64
